@@ -88,6 +88,11 @@ def step' (st : St) (j : Json) : St × List String :=
   | "validate" => let (s, l) := apply st .validate; (s, [l])
   | "observe" => let (s, l) := observe st "ok"; (s, [l])
   | "sleep" => let (s, l) := observe st "ok"; (s, [l])
+  | "get" =>
+    let after := jNat j "after"
+    let (st, sS) := nameSeed st st.w.S.seed
+    let rows := ((st.w.S.rowsAfter after).toArray.qsort (fun a b => a.ts < b.ts)).toList
+    (st, [s!"get after={after} seed={sS} ts={st.w.S.lastTs} [{String.intercalate " " (rows.map fun r => s!"{r.ts}:{r.id}")}]"])
   | o => (st, ["bad-op:" ++ o])
 
 end Nuts.Drv.C16
